@@ -9,16 +9,17 @@ Arguments set_add : simpl never.
 
 (** * Where a thread is *)
 Definition in_store_pc (p : pc) : bool :=
-  match p with PJoinOwn | PSendConnect | PSetConnected | PSpawn | PConnTables | PAdmitted => true | _ => false end.
+  match p with PConnTables | PJoinOwn | PSendConnect | PSetConnected | PSpawn | PAdmitted => true | _ => false end.
 Definition own_joined_pc (p : pc) : bool :=
-  match p with PSendConnect | PSetConnected | PSpawn | PConnTables | PAdmitted => true | _ => false end.
+  match p with PSendConnect | PSetConnected | PSpawn | PAdmitted => true | _ => false end.
 Definition connect_sent_pc (p : pc) : bool :=
-  match p with PSetConnected | PSpawn | PConnTables | PAdmitted => true | _ => false end.
+  match p with PSetConnected | PSpawn | PAdmitted => true | _ => false end.
 Definition connected_pc (p : pc) : bool :=
-  match p with PSpawn | PConnTables | PAdmitted => true | _ => false end.
+  match p with PSpawn | PAdmitted => true | _ => false end.
 Definition spawned_pc (p : pc) : bool :=
-  match p with PConnTables | PAdmitted => true | _ => false end.
-Definition tables_pc (p : pc) : bool := match p with PAdmitted => true | _ => false end.
+  match p with PAdmitted => true | _ => false end.
+Definition tables_pc (p : pc) : bool :=
+  match p with PJoinOwn | PSendConnect | PSetConnected | PSpawn | PAdmitted => true | _ => false end.
 Definition cleaned_pc (p : pc) : bool := match p with PSendError _ | PRejected _ => true | _ => false end.
 
 Definition acc_prefix (c : list mwb) (i : nat) : Prop := Forall (fun b => accepts b = true) (firstn i c).
@@ -134,13 +135,13 @@ Proof.
   - unfold same_for; simpl. rewrite mw_calls_snoc, packets_snoc, handler_runs_snoc. simpl. neqb.
     rewrite ?app_nil_r, ?Nat.add_0_r. intuition.
   - unfold same_for; simpl. rewrite set_add_N_In. intuition.
+  - unfold same_for; simpl. repeat split; auto; try tauto.
+    + intros (c & H). apply in_app_or in H as [H|[H|[]]]; eauto. inversion H; subst. contradiction.
+    + intros (c & H). exists c. apply in_or_app; auto.
   - unfold same_for; simpl. rewrite add_all_sids_other by auto. intuition.
   - unfold same_for; simpl. rewrite mw_calls_snoc, packets_snoc, handler_runs_snoc. simpl. neqb.
     rewrite ?app_nil_r, ?Nat.add_0_r. intuition.
   - unfold same_for; simpl. rewrite set_add_N_In. intuition.
-  - unfold same_for; simpl. repeat split; auto; try tauto.
-    + intros (c & H). apply in_app_or in H as [H|[H|[]]]; eauto. inversion H; subst. contradiction.
-    + intros (c & H). exists c. apply in_or_app; auto.
 Qed.
 
 Lemma step_h_frame : forall t s x, x <> t_sid t -> same_for x s (snd (step_h t s)).
@@ -222,6 +223,9 @@ Proof.
   - constructor; fin.
   - (* PStore *)
     constructor; fin.
+  - (* PConnTables *)
+    constructor; fin.
+    split; auto. intros _. exists cn. apply in_or_app. right. left. reflexivity.
   - (* PJoinOwn *)
     constructor; fin.
     + intros r H. apply add_all_rooms_of in H as [H|[_ [H|[]]]]; auto.
@@ -235,9 +239,6 @@ Proof.
     constructor; fin.
     rewrite I9. destruct h; auto. exfalso. assert (HRan <> HNone) as X by discriminate.
     apply I10 in X. discriminate.
-  - (* PConnTables *)
-    constructor; fin.
-    split; auto. intros _. exists cn. apply in_or_app. right. left. reflexivity.
   - constructor; fin.
 Qed.
 
@@ -521,8 +522,8 @@ Definition mu (t : adm) : nat :=
   match t_pc t with
   | PMw i => (length (t_chain t) - i) + 8
   | PCleanup _ => 2 | PSendError _ => 1 | PRejected _ => 0
-  | PStore => 6 | PJoinOwn => 5 | PSendConnect => 4 | PSetConnected => 3 | PSpawn => 2
-  | PConnTables => 1 | PAdmitted => 0
+  | PStore => 6 | PConnTables => 5 | PJoinOwn => 4 | PSendConnect => 3 | PSetConnected => 2
+  | PSpawn => 1 | PAdmitted => 0
   end.
 
 Lemma step_main_mu : forall t s, (mu (fst (step_main t s)) < mu t)%nat \/ (mu t = 0%nat /\ fst (step_main t s) = t).
